@@ -206,14 +206,34 @@ class Cond(Unknown):
 
 
 class AObj:
-    def __init__(self, name, fields=None):
+    def __init__(self, name, fields=None, cls=None):
         self.name = name
+        self.cls = cls
         self.fields = dict(fields or {})
         self.calls = []  # (method, args, kwargs)
         self.writes = []  # (attr, value)
 
     def __repr__(self):
         return f"AObj({self.name})"
+
+
+class EnumMember:
+    """A member of an Enum class found in the source (class node, name, folded value)."""
+
+    def __init__(self, mod, cls, name, value):
+        self.mod = mod
+        self.cls = cls
+        self.name = name
+        self.value = value
+
+    def __eq__(self, other):
+        return isinstance(other, EnumMember) and other.cls.name == self.cls.name and other.name == self.name
+
+    def __hash__(self):
+        return hash((self.cls.name, self.name))
+
+    def __repr__(self):
+        return f"{self.cls.name}.{self.name}"
 
 
 class AFormat:
@@ -238,6 +258,7 @@ class PathResult:
         self.decisions = decisions  # [(text, bool)]
         self.facts = facts
         self.upper = dict(interp.upper)
+        self.bindings = dict(interp.bindings)
         self.calls = list(interp.calls_log)
         self.objects = list(interp.objects)
         self.args = interp.cur_args
@@ -274,13 +295,50 @@ class _Continue(Exception):
 
 
 class Interp:
-    def __init__(self, repo, mod, externs=None, max_depth=8, max_paths=512, fork_unknown_calls=False):
+    def __init__(self, repo, mod, externs=None, max_depth=8, max_paths=512, stubs=(), fork_dict=False):
         self.repo = repo
         self.mod = mod
         self.externs = externs or {}
         self.max_depth = max_depth
         self.max_paths = max_paths
-        self.const_env = None
+        self.stubs = set(stubs)
+        self.fork_dict = fork_dict
+        self.construct = set()
+        self._super_ctx = []
+        self._class_consts = {}
+
+    def _construct(self, m, c, o, args, kwargs):
+        init = None
+        for st in c.body:
+            if isinstance(st, ast.FunctionDef) and st.name == "__init__":
+                init = st
+        if init is None:
+            for b in c.bases:
+                bn = (dotted(b) or "").split(".")[-1]
+                for m2 in self.repo.core_modules():
+                    if bn in m2.classes:
+                        return self._construct(m2, m2.classes[bn], o, args, kwargs)
+            return
+        self._super_ctx.append((m, c))
+        try:
+            self.call_function(m, init, [o] + args, kwargs)
+        finally:
+            self._super_ctx.pop()
+
+    def class_ancestors(self, clsname):
+        """Names of the class and all its (package-declared) ancestors."""
+        out = {clsname}
+        todo = [clsname]
+        while todo:
+            c = todo.pop()
+            for m in self.repo.core_modules():
+                if c in m.classes:
+                    for b in m.classes[c].bases:
+                        bn = (dotted(b) or "").split(".")[-1]
+                        if bn and bn not in out:
+                            out.add(bn)
+                            todo.append(bn)
+        return out
 
     # ---------------------------------------------------------------- driver
     def run(self, qual, make_args, mod=None):
@@ -298,24 +356,25 @@ class Interp:
             self.upper = {}
             self.calls_log = []
             self.objects = []
+            self.bindings = {}
             self.depth = 0
             args, kwargs = make_args()
             self.cur_args = (args, kwargs)
             try:
                 v = self.call_function(mod, func, args, kwargs)
-                results.append(PathResult("return", v, list(self.trace), list(self.facts), self))
+                results.append(PathResult("return", v, [(x[0], x[1]) for x in self.trace], list(self.facts), self))
             except _Raise as r:
-                results.append(PathResult("raise", r.exc, list(self.trace), list(self.facts), self))
+                results.append(PathResult("raise", r.exc, [(x[0], x[1]) for x in self.trace], list(self.facts), self))
             if len(results) > self.max_paths:
                 raise AnalysisError(f"absint: more than {self.max_paths} paths in {qual}")
-            # next script
-            t = [d for _, d in self.trace]
-            while t and t[-1] is False:
+            # next script (DFS over n-ary decisions)
+            t = [(x[2], x[3]) for x in self.trace]
+            while t and t[-1][0] >= t[-1][1] - 1:
                 t.pop()
             if not t:
                 break
-            t[-1] = False
-            script = t
+            script = [i for i, _ in t]
+            script[-1] += 1
         return results
 
     # ---------------------------------------------------------------- calls
@@ -374,15 +433,22 @@ class Interp:
             return True
         if not isinstance(v, Unknown):
             return bool(v)
-        if self.pos < len(self.script):
-            d = self.script[self.pos]
-        else:
-            d = True
-            self.script.append(True)
-        self.pos += 1
-        self.trace.append((v.text, d))
+        i = self.choose(2, v.text)
+        d = i == 0
+        self.trace[-1] = (v.text, d, i, 2)
         self.learn(v, d)
         return d
+
+    def choose(self, n, text):
+        """n-ary decision point; returns the index chosen on this run."""
+        if self.pos < len(self.script):
+            i = self.script[self.pos]
+        else:
+            i = 0
+            self.script.append(0)
+        self.pos += 1
+        self.trace.append((text, i, i, n))
+        return i
 
     def learn(self, cond, truth):
         self.facts.append((cond.text, truth))
@@ -410,20 +476,47 @@ class Interp:
             op = {"<": ">", ">": "<", "<=": ">=", ">=": "<="}.get(op, op)
         if not (isinstance(l, BV) and isinstance(r, int)):
             return
-        name = self._pure_symbol(l)
-        if name is None:
+        ns = self._shifted_symbol(l)
+        if ns is None:
             return
+        name, k = ns
         if not truth:
             op = {"<": ">=", ">=": "<", ">": "<=", "<=": ">"}.get(op)
         ub = None
+        # l == sym * 2^k
         if op == "<":
-            ub = r - 1
+            ub = -((-r) >> k) - 1  # sym < ceil(r / 2^k)
         elif op == "<=":
-            ub = r
+            ub = r >> k
         elif op == "==":
-            ub = r
+            ub = r >> k
         if ub is not None and ub >= 0:
             self.upper[name] = min(self.upper.get(name, ub), ub)
+
+    @staticmethod
+    def _shifted_symbol(bv):
+        """(name, k) if bv is exactly symbol << k."""
+        name = None
+        k = None
+        for i, b in enumerate(bv.bits):
+            if b == 0:
+                continue
+            if not isinstance(b, tuple):
+                return None
+            if k is None:
+                k = i - b[2]
+                name = b[1]
+                if k < 0 or b[2] != 0:
+                    return None
+            if b[1] != name or i - b[2] != k:
+                return None
+        if name is None:
+            return None
+        # all symbol bits up to the top must be present
+        for i in range(k, W):
+            if bv.bits[i] != ("s", name, i - k):
+                return None
+        return name, k
 
     @staticmethod
     def _pure_symbol(bv):
@@ -588,7 +681,10 @@ class Interp:
         if name in _BUILTINS:
             return ("builtin", name)
         if name in mod.imports:
-            return ("extmodule", mod.imports[name][2] if mod.imports[name][0] == "import" else name)
+            imp = mod.imports[name]
+            if imp[0] == "import":
+                return ("extmodule", imp[2])
+            return ("extfunc", f"{imp[2]}.{imp[3]}")
         raise AnalysisError(f"absint: unbound name {name} in {mod.rel}")
 
     def eval(self, e, env, mod):
@@ -706,6 +802,11 @@ class Interp:
                 l = l.concrete()
             if isinstance(r, BV) and r.concrete() is not None:
                 r = r.concrete()
+            if opname in ("is", "is not") and (l is None or r is None) and isinstance(r if l is None else l, (AObj, AList, SymList, BV, EnumMember)):
+                if opname == "is":
+                    return False
+                left = right
+                continue
             if _is_conc(l) and _is_conc(r):
                 try:
                     ok = _CMPF[opname](l, r)
@@ -760,11 +861,16 @@ class Interp:
                         return bv_shift(y, a.bit_length() - 1)
                     if isinstance(b, int) and b > 0 and b & (b - 1) == 0:
                         return bv_shift(x, b.bit_length() - 1)
-                if isinstance(op, ast.Sub) and isinstance(b, int) and isinstance(a, BV):
-                    pass
+                if isinstance(op, ast.FloorDiv) and isinstance(b, int) and b > 0 and b & (b - 1) == 0:
+                    return bv_shift(x, -(b.bit_length() - 1))
+                if isinstance(op, ast.Mod) and isinstance(b, int) and b > 0 and b & (b - 1) == 0:
+                    return bv_binop(ast.BitAnd(), x, BV.const(b - 1))
                 r = bv_binop(op, x, y)
                 if r is not None:
                     return r
+                if isinstance(op, (ast.Sub, ast.Mult, ast.FloorDiv, ast.Mod, ast.Pow)):
+                    # not a bit permutation: every bit of the result is unknown
+                    return BV(["?"] * W)
         sym = _OPSYM.get(type(op), "?")
         return Unknown(f"({_text(a)} {sym} {_text(b)})", (sym, a, b))
 
@@ -779,7 +885,23 @@ class Interp:
                 if isinstance(st, (ast.FunctionDef,)) and st.name == attr:
                     return ("func", m, st)
             # class constants evaluated in class scope order
+            key = (m.name, c.name)
+            if key in self._class_consts:
+                cenv = self._class_consts[key]
+                if attr in cenv:
+                    return cenv[attr]
+                return Unknown(f"{c.name}.{attr}")
             cenv = {}
+            is_enum = any((dotted(b) or "").split(".")[-1] in ("Enum", "IntEnum", "Flag", "IntFlag") for b in c.bases)
+            is_int_enum = any((dotted(b) or "").split(".")[-1] in ("IntEnum", "IntFlag") for b in c.bases)
+            auto_n = [0]
+
+            def _auto(interp, a, k, node):
+                auto_n[0] += 1
+                return auto_n[0]
+
+            saved = self.externs.get("enum.auto")
+            self.externs["enum.auto"] = _auto
             for st in c.body:
                 tgt = None
                 if isinstance(st, ast.Assign) and len(st.targets) == 1 and isinstance(st.targets[0], ast.Name):
@@ -791,6 +913,17 @@ class Interp:
                         cenv[tgt] = self.eval(val, cenv, m)
                     except AnalysisError:
                         cenv[tgt] = Unknown(f"{c.name}.{tgt}")
+                    if is_enum and not tgt.startswith("_"):
+                        raw = cenv[tgt]
+                        if is_int_enum and isinstance(raw, int):
+                            pass  # IntEnum members behave as ints; keep the int (name is not needed for arithmetic)
+                        else:
+                            cenv[tgt] = EnumMember(m, c, tgt, raw)
+            if saved is None:
+                self.externs.pop("enum.auto", None)
+            else:
+                self.externs["enum.auto"] = saved
+            self._class_consts[key] = cenv
             if attr in cenv:
                 v = cenv[attr]
                 return v
@@ -808,6 +941,15 @@ class Interp:
             return ("method", obj, attr)
         if isinstance(obj, Unknown):
             return Unknown(f"{obj.text}.{attr}")
+        if isinstance(obj, EnumMember):
+            if attr == "value":
+                return obj.value
+            if attr == "name":
+                return obj.name
+            for st in obj.cls.body:
+                if isinstance(st, ast.FunctionDef) and st.name == attr:
+                    return ("boundmethod", obj.mod, st, obj)
+            raise AnalysisError(f"absint: enum member attribute {obj!r}.{attr}")
         if isinstance(obj, BV) or isinstance(obj, int):
             if attr == "value":
                 return obj
@@ -824,6 +966,13 @@ class Interp:
                     raise _Raise(AObj("IndexError"))
                 return AList(r) if isinstance(idx, slice) else r
             return Unknown(f"{obj.name}[{_text(idx)}]")
+        if isinstance(obj, dict) and isinstance(idx, Unknown) and self.fork_dict and obj:
+            keys = list(obj.keys())
+            i = self.choose(len(keys), f"{idx.text} == ?")
+            self.trace[-1] = (f"{idx.text} == {keys[i]!r}", True, i, len(keys))
+            self.facts.append((f"{idx.text} == {keys[i]!r}", True))
+            self.bindings[idx.text] = keys[i]
+            return obj[keys[i]]
         if isinstance(obj, (str, bytes, tuple, list, dict, range)):
             if _is_conc(idx) or isinstance(idx, slice):
                 try:
@@ -841,6 +990,25 @@ class Interp:
         raise AnalysisError(f"absint: subscript of {obj!r} at {mod.rel}:{node.lineno}")
 
     def call(self, e, env, mod):
+        if (
+            isinstance(e.func, ast.Attribute)
+            and e.func.attr == "__init__"
+            and isinstance(e.func.value, ast.Call)
+            and isinstance(e.func.value.func, ast.Name)
+            and e.func.value.func.id == "super"
+            and self._super_ctx
+            and "self" in env
+        ):
+            m, c = self._super_ctx[-1]
+            args = [self.eval(a, env, mod) for a in e.args]
+            kwargs = {k.arg: self.eval(k.value, env, mod) for k in e.keywords if k.arg}
+            for b in c.bases:
+                bn = (dotted(b) or "").split(".")[-1]
+                for m2 in self.repo.core_modules():
+                    if bn in m2.classes:
+                        self._construct(m2, m2.classes[bn], env["self"], args, kwargs)
+                        return None
+            return None
         f = self.eval(e.func, env, mod)
         args = []
         for a in e.args:
@@ -859,12 +1027,35 @@ class Interp:
         if callable(f) and not isinstance(f, tuple):
             return f(self, args, kwargs, e)
         if isinstance(f, tuple) and f and f[0] == "func":
+            if f[2].name in self.stubs:
+                o = Unknown(f"{f[2].name}({', '.join(_text(a) for a in args)})", ("call", f[2].name, args))
+                self.calls_log.append((f[2].name, args, kwargs, o))
+                return o
             return self.call_function(f[1], f[2], args, kwargs)
+        if isinstance(f, tuple) and f and f[0] == "boundmethod":
+            return self.call_function(f[1], f[2], [f[3]] + args, kwargs)
         if isinstance(f, tuple) and f and f[0] == "class":
             _, m, c = f
             bases = [dotted(b) for b in c.bases]
             if any(b and b.endswith("Error") or b in ("Exception",) for b in bases) or c.name.endswith("Error"):
                 o = AObj(c.name, {"args": args})
+                return o
+            if c.name in self.construct:
+                o = AObj(c.name + "()", cls=c.name)
+                self.objects.append(o)
+                self._construct(m, c, o, args, kwargs)
+                return o
+            nt = [dotted(b) for b in c.bases]
+            if "NamedTuple" in nt:
+                flds = [st.target.id for st in c.body if isinstance(st, ast.AnnAssign) and isinstance(st.target, ast.Name)]
+                o = AObj(c.name + "()", cls=c.name)
+                for i, fname in enumerate(flds):
+                    if i < len(args):
+                        o.fields[fname] = args[i]
+                    elif fname in kwargs:
+                        o.fields[fname] = kwargs[fname]
+                o.tuple_fields = flds
+                self.objects.append(o)
                 return o
             o = AObj(c.name + "()")
             self.objects.append(o)
@@ -875,10 +1066,12 @@ class Interp:
         if isinstance(f, tuple) and f and f[0] == "method":
             return self.method(f[1], f[2], args, kwargs, e, mod)
         if isinstance(f, tuple) and f and f[0] == "extfunc":
-            if f[1] == "struct.pack":
-                return APack(args[0], args[1:])
             if f[1] in self.externs:
                 return self.externs[f[1]](self, args, kwargs, e)
+            if f[1] == "struct.pack":
+                return APack(args[0], args[1:])
+            if f[1] == "typing.cast":
+                return args[1]
             o = Unknown(f"{f[1]}({', '.join(_text(a) for a in args)})", ("call", f[1], args))
             self.calls_log.append((f[1], args, kwargs, o))
             return o
@@ -918,6 +1111,8 @@ class Interp:
             if isinstance(v, BV):
                 return v
             return Unknown(f"int({_text(v)})", ("int", v))
+        if name == "divmod" and len(args) == 2 and isinstance(args[0], BV) and isinstance(args[1], int):
+            return (self.binop(ast.FloorDiv(), args[0], args[1]), self.binop(ast.Mod(), args[0], args[1]))
         if name in ("float", "abs", "max", "min", "round", "bool", "str", "bytes", "bytearray", "ord", "chr", "sum", "pow", "divmod"):
             if all(_is_conc(a) for a in args) and not kwargs:
                 try:
@@ -929,6 +1124,28 @@ class Interp:
                     raise AnalysisError(f"absint: builtin {name} failed: {ex}")
             return Unknown(f"{name}({', '.join(_text(a) for a in args)})", (name, *args))
         if name == "isinstance":
+            o = args[0]
+            if isinstance(o, AObj) and getattr(o, "cls", None):
+                want = args[1] if isinstance(args[1], tuple) and args[1] and args[1][0] not in ("class", "extfunc") else (args[1],)
+                names = []
+                for w in want:
+                    if isinstance(w, tuple) and w and w[0] == "class":
+                        names.append(w[2].name)
+                    elif isinstance(w, tuple) and w and w[0] == "extfunc":
+                        names.append(w[1].split(".")[-1])
+                    else:
+                        names = None
+                        break
+                if names is not None:
+                    return any(n in self.class_ancestors(o.cls) for n in names)
+            if isinstance(o, EnumMember):
+                names = [w[1].split(".")[-1] if w[0] == "extfunc" else w[2].name for w in (args[1] if isinstance(args[1], tuple) and args[1] and isinstance(args[1][0], tuple) else (args[1],))]
+                anc = {(dotted(b) or "").split(".")[-1] for b in o.cls.bases} | {o.cls.name}
+                return any(n in anc for n in names)
+            if isinstance(o, (int, BV)) and not isinstance(o, bool):
+                w = args[1]
+                if isinstance(w, tuple) and w and w[0] == "extfunc" and w[1].split(".")[-1] in ("Enum", "IntEnum"):
+                    return False
             return Unknown(f"isinstance({_text(args[0])}, {norm(e.args[1])})")
         if name in ("list", "tuple"):
             v = args[0] if args else ()
@@ -999,8 +1216,25 @@ class Interp:
 _orig_getattr = Interp.getattr
 
 
+def _find_method(self, clsname, attr):
+    for cn in [clsname] + sorted(self.class_ancestors(clsname) - {clsname}):
+        for m in self.repo.core_modules():
+            if cn in m.classes:
+                for st in m.classes[cn].body:
+                    if isinstance(st, ast.FunctionDef) and st.name == attr:
+                        return m, st
+    return None
+
+
+Interp.find_method = _find_method
+
+
 def _getattr(self, obj, attr, node, mod):
     if isinstance(obj, AObj):
+        if obj.cls and attr not in obj.fields:
+            fm = self.find_method(obj.cls, attr)
+            if fm:
+                return ("boundmethod", fm[0], fm[1], obj)
         parent = mod.parents.get(node)
         if isinstance(parent, ast.Call) and parent.func is node:
             return ("method", obj, attr)
@@ -1036,7 +1270,7 @@ def _is_num(v):
 
 
 def _is_conc(v):
-    return v is None or isinstance(v, (int, float, str, bytes, bool)) or (isinstance(v, tuple) and all(_is_conc(x) for x in v) and (not v or v[0] not in ("func", "class", "module", "builtin", "method", "extfunc", "extmodule")))
+    return isinstance(v, EnumMember) or v is None or isinstance(v, (int, float, str, bytes, bool)) or (isinstance(v, tuple) and all(_is_conc(x) for x in v) and (not v or v[0] not in ("func", "class", "module", "builtin", "method", "extfunc", "extmodule")))
 
 
 def _text(v):
